@@ -122,6 +122,10 @@ def cases(shard, rnd):
                     array.array('I', [1, 2, 3]), array.array('d', [1.5]),
                     array.array('q', [-1, 5])):
             yield {'t': 'body', 'body': buf, 'ch': gf.rchannel(rnd)}
+        if shard.get('i', 0) == 0 or shard['name'].endswith('0'):
+            from ..gen import values as _gv
+            for buf in _gv.buffer_bodies(rnd):
+                yield {'t': 'body', 'body': buf, 'ch': gf.rchannel(rnd)}
         # the encoder also emits a frame for an EMPTY body
         for ch in (0, 1, 65535):
             yield {'t': 'body', 'body': b'', 'ch': ch}
